@@ -156,6 +156,12 @@ Constructs added for the import side of term parameters (`Term._parse`, `configu
 * `a or b` for two pure strings is the string `a` unless it is empty, else `b` (its truth value is `a != "" or b != ""`);
 * in an external pattern a constant matches a constant of the *same type* only (`1.0` is not `1` and not `True`).
 
+Added for `Linear.membership` / `Aggregated.highest_activated_term` (profiles `discrete.py`): `a in {b, c}` / `a not in
+{b, c}` with a set display is membership in the list `[b, c]` (the elements are evaluated left to right after `a`);
+`if (x := e) <op> c:` is `x = e` followed by `if x <op> c:` (the left operand of a comparison is evaluated first); the
+elements of a list literal may raise (evaluated left to right); a function whose return type `ret` is itself an
+optional (`Activated | None`) stores `some <the optional>` in the field `ret` (`none` = no `return` was executed).
+
 Anything outside the subset raises `Untranslatable` - the tie is then reported as broken (never silently skipped).
 """
 from __future__ import annotations
@@ -655,7 +661,11 @@ class Fn:
                 if not (isinstance(c, ast.Constant) and c.value is None and l.ty.startswith("Option ")):
                     raise Untranslatable(f"'is' other than `<optional> is None`: {ast.unparse(node)}")
                 return self.bind1(l, lambda x: (f"({x}).isNone" if isinstance(node.ops[0], ast.Is) else f"({x}).isSome"), "Bool")
-            op, l, r = node.ops[0], self.ce(node.left), self.ce(node.comparators[0])
+            cmp0 = node.comparators[0]
+            if isinstance(node.ops[0], (ast.In, ast.NotIn)) and isinstance(cmp0, ast.Set):
+                # `a in {b, c}`: membership in a set display is membership in the list of its elements
+                cmp0 = ast.List(elts=cmp0.elts, ctx=ast.Load())
+            op, l, r = node.ops[0], self.ce(node.left), self.ce(cmp0)
             optn = ("Option Int", "Option Nat", "Option String")
             if isinstance(op, (ast.Eq, ast.NotEq)) and (l.ty in optn) != (r.ty in optn) and (l.ty in ("Nat", "Int", "String") or r.ty in ("Nat", "Int", "String")):
                 # `None == 0` is False (no exception): compare as optionals
@@ -792,8 +802,15 @@ class Fn:
             return E("[]", "List _")
         if isinstance(node, ast.List):
             es = [self.ce(x) for x in node.elts]
-            if len({x.ty for x in es}) != 1 or not all(x.pure for x in es):
+            if len({x.ty for x in es}) != 1:
                 raise Untranslatable(f"list literal {ast.unparse(node)}")
+            if not all(x.pure for x in es):
+                # elements that can raise are evaluated left to right
+                names = [f"e{i}" for i in range(len(es))]
+                body = ".ok [" + ", ".join(names) + "]"
+                for nm, x in reversed(list(zip(names, es))):
+                    body = f"({x.m()} >>= fun {nm} => {body})"
+                return E(body, f"List {paren(es[0].ty)}", False)
             return E("[" + ", ".join(x.term for x in es) + "]", f"List {paren(es[0].ty)}")
         if isinstance(node, ast.ListComp):
             g = node.generators[0]
@@ -1166,6 +1183,13 @@ class Fn:
             tgt = s.test.target.id
             return self.cs([ast.Assign(targets=[ast.Name(id=tgt, ctx=ast.Store())], value=s.test.value),
                             ast.If(test=ast.Name(id=tgt, ctx=ast.Load()), body=s.body, orelse=s.orelse)] + list(rest), k, loopk, brk)
+        if (isinstance(s, ast.If) and isinstance(s.test, ast.Compare) and isinstance(s.test.left, ast.NamedExpr)
+                and isinstance(s.test.left.target, ast.Name)):
+            # `if (x := e) < c:` is `x = e; if x < c:` (the left operand of a comparison is evaluated first)
+            tgt = s.test.left.target.id
+            test = ast.Compare(left=ast.Name(id=tgt, ctx=ast.Load()), ops=s.test.ops, comparators=s.test.comparators)
+            return self.cs([ast.Assign(targets=[ast.Name(id=tgt, ctx=ast.Store())], value=s.test.left.value),
+                            ast.If(test=test, body=s.body, orelse=s.orelse)] + list(rest), k, loopk, brk)
         if isinstance(s, ast.If):
             c = self.truthy(self.ce(s.test))
 
